@@ -62,7 +62,7 @@ func (r *runner) mid(tickNo int) time.Time {
 
 // late: the operation would not run inside "the middle of tick now" any more -- the behaviour is abandoned
 func (r *runner) late(now int) bool {
-	return time.Since(r.mid(now)) > r.tick/4
+	return time.Since(r.mid(now)) > r.tick*2/5
 }
 
 func (r *runner) snapshot() centrifuge.VerifMapSnapshot { return centrifuge.VerifMapPeek(r.b, r.ch) }
@@ -191,6 +191,10 @@ func (r *runner) run(beh []map[string]any) (completed int) {
 				if !r.finishSweep(si) {
 					return 0
 				}
+				if r.late(now) { // the next decoy key must be in place well before the tick ends
+					r.res.Count("skipped_late", 1)
+					return 0
+				}
 				if len(r.collected) > 0 {
 					r.fail("C24", "expiry:spurious-removal", fmt.Sprintf("a sweep with no expired key broadcast %s", vh.J(r.collected)), step, si)
 					return 0
@@ -210,6 +214,10 @@ func (r *runner) run(beh []map[string]any) (completed int) {
 			if r.inWindow {
 				r.inWindow = false
 				if !r.finishSweep(si) {
+					return 0
+				}
+				if r.late(now) {
+					r.res.Count("skipped_late", 1)
 					return 0
 				}
 			}
